@@ -15,8 +15,9 @@ GEN_FUNCS = ('get_bind_group_data', 'global_shader_stages', 'structs', 'consts',
 
 def run(ctx):
     S, c = ctx.S, ctx.S.conv
-    src = open(FIXTURE).read()
-    module = S.module(src)
+    src_text = open(FIXTURE).read()
+    module = S.module(src_text)
+    src = SymStr([('sym', 'SOURCE_TEXT')])        # the text is opaque: whatever the crate hands to the parser must be it
     E1, E2 = Opaque('naga ParseError payload'), Opaque('naga WithSpan<ValidationError> payload')
     validate_on = z3.Bool('validate_is_some')
     caps = z3.BitVec('capabilities', 32)
@@ -83,11 +84,11 @@ def run(ctx):
                     problems.append(f'accepted module returns {out}')
                 else:
                     ok_tokens.append((von, T.canon(out.fields[0].toks), pc))
-        if log.get('parse_arg') is not src and log.get('parse_arg') != src:
-            problems.append('parser was not handed the source')
+        if not (log.get('parse_arg') == src):
+            problems.append(f'parser was handed {log.get("parse_arg")!r} instead of the source text')
         if problems:
             ctx.queries['sat'] += 1
-            rep, det = native(ctx, src)
+            rep, det = native(ctx, src_text)
             ctx.report('C17/' + problems[0].split(':')[0][:40], '; '.join(problems) + f' (validate={von})', det, rep, det)
         else:
             ctx.queries['unsat'] += 1
@@ -100,7 +101,7 @@ def run(ctx):
             ctx.queries['discharged'] += 1
             if tk != ref:
                 ctx.queries['sat'] += 1
-                rep, det = native(ctx, src)
+                rep, det = native(ctx, src_text)
                 ctx.report('C17/validation-changes-output', 'enabling validation changes the generated tokens', det, rep, det)
             else:
                 ctx.queries['unsat'] += 1
@@ -138,16 +139,17 @@ def run(ctx):
                 ctx.queries['unsat'] += 1
             else:
                 ctx.queries['sat'] += 1
-                rep, det = native(ctx, src)
+                rep, det = native(ctx, src_text)
                 ctx.report('C17/emit-dispatch', f'{name.split("::")[-1]} on {variant}: {r[0][1] if r else "?"} calls={rec.get("calls")}', det, rep, det)
     # ---- supplement: corruptions through the real build (naga is real here); nothing may panic, errors must render
-    rep, det = native(ctx, src)
+    rep, det = native(ctx, src_text)
     if rep:
         ctx.report('C17/native-corpus', f'real build misbehaves on a corrupted source: {det.get("first")}', det, True, det)
 
 
 def corruptions(src, rng, n):
-    out = [src[:len(src) // 2], src.replace('{', '', 1), src.replace(';', '', 1), src + ' @', src.replace('fn', 'f\U0001F600n', 1),
+    out = ['\ufeff' + src, src + '\ufeff', '\u200b' + src, ' \n' + src, src.replace('\n', '\r\n'), src.replace(' ', '\u00a0', 1),
+           src[:len(src) // 2], src.replace('{', '', 1), src.replace(';', '', 1), src + ' @', src.replace('fn', 'f\U0001F600n', 1),
            src.replace('var', 'let', 1), src.replace('u32', 'u33', 1), '@group(0) @binding(0) var<uniform> a: f32;\n@group(0) @binding(0) var<uniform> b: f32;\n',
            'fn f() -> f32 { return 1; }',
            # rejected only by one validation class each (BINDINGS collision / missing binding, STRUCT_LAYOUTS, CONTROL_FLOW_UNIFORMITY, BLOCKS)
@@ -203,8 +205,12 @@ def native(ctx, src):
             r = ctx.S.oracle.emit(s, opts)
             det['checked'] += 1
             bad = 'panic' in r or 'crash' in r or ('err' in r and r['err'].get('kind') in ('ParseError', 'ValidationError') and not r.get('emit'))
+            d = ctx.S.oracle.dump(s)
+            if 'module' not in d and 'err' in d:
+                # the real front end rejects this text: the generator must return exactly the parse error, never Ok
+                if (r.get('err') or {}).get('kind') != 'ParseError':
+                    bad = True
             if opts.get('validate') is True:
-                d = ctx.S.oracle.dump(s)
                 if 'module' in d:
                     # the real validator (all flags, all capabilities) is the reference for what must be rejected
                     kind_ = (r.get('err') or {}).get('kind')
